@@ -79,6 +79,14 @@ impl std::fmt::Debug for SimIo {
 }
 
 pub fn conn_text(t: &T2) -> String {
+    // after a panic inside h2 the snapshot hook would run into the poisoned lock
+    match std::panic::catch_unwind(std::panic::AssertUnwindSafe(|| conn_text_inner(t))) {
+        Ok(s) => s,
+        Err(_) => "poisoned".to_string(),
+    }
+}
+
+fn conn_text_inner(t: &T2) -> String {
     match &t.conn {
         Conn::Client(c) => {
             let s = c.verif_snapshot();
@@ -128,6 +136,10 @@ impl<'a, M: Model> Harness for X2Harness<'a, M> {
         let n = m.n_events();
         let mut pruned = false;
         loop {
+            // after a panic inside h2 its internal lock is poisoned: nothing more can be asked of the handles
+            if !t.panics.is_empty() {
+                break;
+            }
             // invariants hold in every state
             vios.extend(m.invariant(&mut t, &mut w));
             if !t.panics.is_empty() {
@@ -158,7 +170,16 @@ impl<'a, M: Model> Harness for X2Harness<'a, M> {
         }
         if !pruned && t.panics.is_empty() {
             t.sh.lock().unwrap().chooser.recording = false;
-            vios.extend(m.epilogue(&mut t, &mut w));
+            // the epilogue talks to handles; if h2 panics in the middle of it (recorded in t.panics) its lock is poisoned and
+            // the next handle call panics as well: that secondary panic is not a finding of its own
+            match std::panic::catch_unwind(std::panic::AssertUnwindSafe(|| m.epilogue(&mut t, &mut w))) {
+                Ok(v) => vios.extend(v),
+                Err(p) => {
+                    if t.panics.is_empty() {
+                        t.panics.push(format!("epilogue: {}", crate::c11::panic_text(&p)));
+                    }
+                }
+            }
         }
         for p in &t.panics {
             vios.push((format!("{}.panic", self.prop), p.lines().next().unwrap_or("").chars().take(80).collect(), format!("panic: {}", p.lines().next().unwrap_or(""))));
